@@ -9,6 +9,8 @@
 -/
 import GrogModel.Lemmas.GraphPaths
 import GrogModel.Lemmas.GraphSelect
+import GrogModel.Lemmas.GraphMemo
+import GrogModel.Query
 namespace Grog.C19
 open Grog
 
@@ -80,6 +82,49 @@ theorem changes_cost_le (n : Nat) (es : List Edge) (hwf : WF n es) :
     have h2 := changes_cost_le n es hwf rest (fun x hx => h x (List.mem_cons_of_mem _ hx))
     simp only [List.map_cons, List.sum_cons, List.length_cons]
     rw [Nat.succ_mul]; omega
+
+/-- `grog changes` with a filter: the nodes are collected by traversals that never look at the filter (the
+    `--target-type` / `--tag` / `--exclude-tag` selector is applied to the collected list afterwards), so the cost
+    is the same for every filter and at most `|owners| · (|V| + |E|)` — in particular a ladder of filtered-out
+    library layers below a few tests costs no more than with `--target-type=all`. -/
+theorem changes_filter_independent (g : BuildGraph) (s : Selector) (h : Host) (inputs : Nat → List Bytes)
+    (files : List Bytes) (tr : Bool) (hwf : WF g.nodes.length g.edges) :
+    changesCmd g s h inputs files tr = printSorted g ((changesNodes g inputs files tr).filter (g.matchAt s h)) ∧
+    changesCost g inputs files ≤ (ownersOf g inputs files).length * (g.nodes.length + g.edges.length) := by
+  refine ⟨rfl, ?_⟩
+  apply changes_cost_le g.nodes.length g.edges hwf
+  intro o ho
+  simp only [ownersOf, List.mem_filter, List.mem_range] at ho
+  exact ho.1
+
+/-- The output-conflict pass with its memo table (`ancestorCache`): for every graph and every list of target pairs
+    the pair loops of `detectOutputConflicts` compare (at most `D²` for `D` output records), starting from an empty
+    table, the pass finishes and costs at most `3·|pairs| + |V|·(1 + 2|E|·(1 + |V|))` steps: every node's ancestor
+    set is computed at most once (a cache miss costs at most `1 + 2|E|(1+|V|)` steps, merging cached sets included),
+    every other `targetsAreOrdered` is two table look-ups. Without the table (`nil` cache per call) every pair
+    would pay the miss cost: `|pairs|·2·(1 + 2|E|(1+|V|))`. -/
+theorem conflict_pass_cost_le (n : Nat) (es : List Edge) (hwf : WF n es) (pairs : List (Nat × Nat))
+    (hp : ∀ p ∈ pairs, p.1 < n ∧ p.2 < n) :
+    ∃ st, pairLoop (flipEdges es) pairs ⟨[], 0⟩ = some st ∧
+      st.cost ≤ 3 * pairs.length + n * (1 + 2 * es.length * (1 + n)) := by
+  have hes : InRange n (flipEdges es) := by
+    intro e he
+    obtain ⟨a, b⟩ := e
+    have := hwf _ (mem_flipEdges.mp he)
+    exact ⟨this.2, this.1⟩
+  obtain ⟨st, h1, _, h3⟩ := pairLoop_spec (flipEdges es) n hes pairs ⟨[], 0⟩ (memoOK_nil n) hp
+  refine ⟨st, h1, ?_⟩
+  have hu := unmemo_le n ([] : Memo)
+  have hpot : st.cost ≤ passPot n (flipEdges es) st := by simp [passPot]
+  have h0 : passPot n (flipEdges es) ⟨[], 0⟩ ≤ n * (1 + 2 * es.length * (1 + n)) := by
+    simp only [passPot, missCost, length_flipEdges, Nat.zero_add]
+    rw [Nat.mul_comm]
+    exact Nat.mul_le_mul_right _ hu
+  omega
+
+/-- the pass on a diamond with every pair compared: 6 pairs, cost 24 ≤ 3·6 + 4·(1 + 2·4·5) = 182 -/
+example : (pairLoop (flipEdges [(0, 1), (0, 2), (1, 3), (2, 3)]) [(0, 1), (0, 2), (0, 3), (1, 2), (1, 3), (2, 3)] ⟨[], 0⟩).map (·.cost) = some 24 := by
+  decide
 
 /-- On an acyclic graph (`Ranked`: some numbering increases along every edge and is bounded by `N`) the
     visited-set `GetDescendants` returns exactly the nodes the path-enumerating one of the old tree
